@@ -462,7 +462,11 @@ where
     });
     match r {
         Ok(Ok(r)) => match de_verdict(&r, x) {
-            Ok(()) => "ok".into(),
+            // "ok~": equal for the oracle (a quieted signalling NaN), not identical for the model
+            Ok(()) => match &r {
+                Ok(Ok(y)) if y.val() != x.val() => format!("ok~ {}", y.val()),
+                _ => "ok".into(),
+            },
             Err(w) => w,
         },
         Ok(Err(e)) => format!("push-error: {}", norm_err(&e.to_string())),
@@ -644,7 +648,19 @@ where
                 println!("{} {}", kind, verdict);
             }
             cx.out.count(&format!("op:{}", kind));
-            if verdict == "ok" {
+            if kind == "push-de" {
+                // correspondence with the Lean model of `De`: outcome class (+ the value read)
+                let payload = if verdict == "ok" {
+                    "ok".to_string()
+                } else if let Some(v) = verdict.strip_prefix("differs: got ").or(verdict.strip_prefix("ok~ ")) {
+                    format!("(differs {})", v)
+                } else {
+                    verdict.split(':').next().unwrap_or("?").to_string()
+                };
+                cx.out.class(format!("de|{}|{}", name, payload.split(' ').next().unwrap_or("")));
+                cx.out.case(&format!("de {} {}", T::tcode(), val), &payload);
+            }
+            if verdict == "ok" || verdict.starts_with("ok~ ") {
                 cx.out.count(&format!("op:{}-ok", kind));
                 continue;
             }
@@ -658,7 +674,7 @@ where
             let family = if kind == "ser-de" && !verdict.starts_with("crash") { "serde-rt" } else { "de" };
             cx.out.oracle_fail(
                 &format!("{}:{}", family, fp),
-                &format!("{}: {} {}: {}", name, clip(&val), if kind == "ser-de" { "through Ser then De" } else { "marshalled, then read with De" }, verdict),
+                &format!("{}: {} {}: {}", name, clip(&val), if kind == "ser-de" { "through Ser then De" } else { "marshalled, then read with De" }, clip(&verdict)),
                 replay(kind),
             );
         }
@@ -677,7 +693,7 @@ fn de_verdict<T: Marsh>(r: &Result<gluon::vm::Result<T>, String>, x: &T) -> Resu
             if y.same(x) {
                 Ok(())
             } else {
-                Err(format!("differs: got {}", clip(&y.val())))
+                Err(format!("differs: got {}", y.val()))
             }
         }
         Ok(Err(e)) => Err(format!("error: {}", norm_err(&e.to_string()))),
